@@ -70,7 +70,9 @@ impl Report {
     }
     pub fn violation(&mut self, sig: &str, what: &str, case: &str, detail: J) {
         // the model runtime met a standard procedure it does not implement: undecided, not violated
-        if sig.contains("model-lacks") {
+        const MODEL_LIMIT_TEXTS: [&str; 6] =
+            ["the model runtime does not implement", "not supported by the model", "too large for the model", "MODEL-OVERFLOW", "model step budget", "unsupported # syntax"];
+        if sig.contains("model-lacks") || MODEL_LIMIT_TEXTS.iter().any(|t| what.contains(t)) {
             if self.inconclusive.len() < 5 {
                 self.inconclusive.push(format!("{} ({})", what.chars().take(200).collect::<String>(), case));
             }
